@@ -128,6 +128,14 @@ def configs(tier):
                         procs=2, jobs=[j0, ap], pool=pk, alphabet=A, depth=d,
                         max_states=ms, final='harness.c01:final',
                         oracle='harness.c06:oracle'))
+    # two jobs whose soft limits expire in the same scan, then more scans
+    # while both still run (each is signalled once)
+    js = dict(kind='apply', fn='ok', soft=1.0)
+    out.append(dict(name='two-jobs/same-soft-limit', procs=2, jobs=[js, js],
+                    pool=dict(base, enable_timeouts=True),
+                    alphabet=dict(A, die=(), max_adv=3), depth=d + 2,
+                    max_states=ms, final='harness.c01:final',
+                    oracle='harness.c06:oracle'))
     # acknowledgement handshake: a job cancelled before acceptance is
     # refused by its worker, which goes on with the next job -- nothing is
     # signalled on behalf of the refused job
